@@ -467,6 +467,11 @@ def _init_htpasswd_context():
     preferred = schemes[:3] + ["apr_md5_crypt"] + schemes
     schemes = sorted(set(schemes), key=preferred.index)
 
+    # "plaintext" identifies *any* string, so it has to come after all the real schemes
+    # (including the host's crypt() schemes appended above), or it would shadow them.
+    schemes.remove("plaintext")
+    schemes.append("plaintext")
+
     # create context object
     return CryptContext(
         schemes=schemes,
